@@ -481,10 +481,13 @@ fn resolve_vertex_type_implementer_edge<'a>(
     vertex: &SchemaVertex<'a>,
 ) -> Box<dyn Iterator<Item = SchemaVertex<'a>> + 'a> {
     let vertex = vertex.as_vertex_type().expect("not a VertexType");
+    let own_name = vertex.defn.name.node.as_str();
     Box::new(
         schema
-            .subtypes(vertex.defn.name.node.as_str())
+            .subtypes(own_name)
             .expect("input type was not part of this schema")
+            // `Schema::subtypes()` includes the type itself, which is not one of its own implementers.
+            .filter(move |implementer_type| *implementer_type != own_name)
             .filter_map(|implementer_type| {
                 schema
                     .vertex_types
